@@ -441,7 +441,7 @@ def payloadGate (s : Srv) (p : Payload) (env : Env) : Except Reason Payload :=
     if env.down then .error .internalServerError else
     match env.verdict with
     | .valid => .ok p
-    | .altered p' => .ok p'
+    | .altered p' => if p'.isEmpty then .error .internalServerError else .ok p'   -- a MESSAGE cannot carry an empty payload
     | .invalid => .error .badRequest
     | .failed => .error .internalServerError
   else .ok p
